@@ -64,6 +64,10 @@ class Rule:
                 doc["examples"][idx] = ex_i.strip()
 
         cast = spec.get("cast")
+        if cast and not isinstance(cast, dict):
+            raise MalformedRuleSpec(
+                f"The rule `cast` must be a mapping of type names, but found: {cast!r}"
+            )
         if cast:
             cast = dict(cast)  # rewritten below: not the caller's mapping
         for cast_from in list((cast or {}).keys()):
